@@ -81,6 +81,17 @@ func (c *Conn) writeExpired() bool {
 
 // Read (server side) returns the next scripted chunk if chunks were given, else whatever is buffered.
 func (c *Conn) Read(p []byte) (int, error) {
+	// under the controlled scheduler waiting for input is blocking on the scheduler, not on the
+	// condition variable: enabled when there is something to return
+	if rt.CurMode == rt.Controlled {
+		if w := rt.W; w != nil && w.Cur != nil && !w.Dead() {
+			w.Point(rt.Op{Kind: rt.OpIO, Obj: c, Enabled: func() bool {
+				c.mu.Lock()
+				defer c.mu.Unlock()
+				return len(c.in) > 0 || len(c.chunks) > 0 || c.eof || c.closed
+			}})
+		}
+	}
 	c.mu.Lock()
 	defer c.mu.Unlock()
 	for len(c.in) == 0 && len(c.chunks) == 0 && !c.eof && !c.closed {
@@ -220,6 +231,45 @@ func (c *Conn) TakeReply(timeout time.Duration) (raw []byte, v model.Val, status
 		}
 		c.cond.Wait()
 	}
+}
+
+// ReplyReady: the server has written at least one complete RESP value, or something that can
+// never become one, or has closed the connection (non-blocking; for harness threads that wait on
+// the controlled scheduler).
+func (c *Conn) ReplyReady() bool {
+	c.mu.Lock()
+	defer c.mu.Unlock()
+	if c.closed {
+		return true
+	}
+	if len(c.out) == 0 {
+		return false
+	}
+	_, _, err := model.Decode(c.out)
+	return err == nil || !isIncomplete(err)
+}
+
+// TryTakeReply is TakeReply without waiting (call when ReplyReady).
+func (c *Conn) TryTakeReply() (raw []byte, v model.Val, status string) {
+	c.mu.Lock()
+	defer c.mu.Unlock()
+	if len(c.out) > 0 {
+		val, n, err := model.Decode(c.out)
+		if err == nil {
+			raw = append([]byte{}, c.out[:n]...)
+			c.out = c.out[n:]
+			return raw, val, "ok"
+		}
+		if !isIncomplete(err) {
+			raw = append([]byte{}, c.out...)
+			c.out = nil
+			return raw, model.Val{}, "malformed: " + err.Error()
+		}
+	}
+	if c.closed {
+		return nil, model.Val{}, "closed"
+	}
+	return nil, model.Val{}, "none"
 }
 
 func isIncomplete(err error) bool {
